@@ -84,6 +84,11 @@ def _label(nodes, param, attr):
   s = "; ".join(parts)
   if s == "@ = _":
     return "id"
+  return _label_text(s)
+
+
+def _label_text(s):
+  """a label longer than MAXLAB is cut and carries a hash of its FULL text (any change of the code changes it)"""
   if len(s) > MAXLAB:
     s = s[:MAXLAB - 12] + "…#" + hashlib.sha256(s.encode()).hexdigest()[:8]
   return s
